@@ -154,3 +154,12 @@ Theorem C19_last_value_takes_effect : forall sets, effect_expected (EOrigin (set
   effect_expected (EOrigin (sets ++ [false])) = "accepted" /\ effect_expected (EOrigin []) = "refused".
 Proof. intro sets. cbn [effect_expected]. rewrite !last_last. auto. Qed.
 Print Assumptions C19_last_value_takes_effect.
+
+(* the same for MAX-RCV-SIZE on a listener, whichever way (listener or socket) and whenever (before or after Listen) it
+   was set: a connection accepted afterwards is held to the last value -- 0 admits everything, v > 0 admits exactly the
+   messages of at most v bytes -- and with nothing set to the 1 MiB default *)
+Theorem C19_max_recv_last_value : forall tr via sets v n,
+  effect_expected (EMaxRecv tr via (sets ++ [v]) n) = (if ((v =? 0) || (n <=? v))%N then "delivered" else "dropped") /\
+  effect_expected (EMaxRecv tr via [] n) = (if (n <=? 1048576)%N then "delivered" else "dropped").
+Proof. intros tr via sets v n. cbn [effect_expected]. rewrite last_last. unfold max_recv_admits. split; reflexivity. Qed.
+Print Assumptions C19_max_recv_last_value.
